@@ -65,12 +65,21 @@ def literal_count_for(rng, kind):
     return {"a": "int", "v": pick(rng, [0, 1, 2, 5, 10, 100, lo, hi, rng.randint(max(lo, -300), min(hi, 300))])}
 
 
+BUILDER_LOCALES = ["en", "fr", "it", "de", "ru", "ar"]
+
+
+def builder_ptable():
+    from .. import probe
+    return probe.plural_table(BUILDER_LOCALES, workload.PLURAL_COUNTS)
+
+
 class Builder:
-    def __init__(self, rng, tier):
+    def __init__(self, rng, tier, ptable=None):
         self.rng = rng
+        self.ptable = ptable
         rng_ = rng
         self.cfg = GenCfg()
-        self.locales = rng_.sample(["en", "fr", "it", "de", "ru", "ar"], rng_.randint(2, 3))
+        self.locales = rng_.sample(BUILDER_LOCALES, rng_.randint(2, 3))
         self.default = self.locales[0]
         self.nss = [None] if rng_.random() < 0.6 else ["nsa", "nsb"]
         inh = {}
@@ -148,13 +157,9 @@ class Builder:
         info = None
         for l in self.locales:
             try:
-                rn = model.Resolver(self.project, None, null_target="chain").key(ns, l, path)
+                rn = model.Resolver(self.project, self.ptable, null_target="chain").key(ns, l, path)
             except model.ModelError as e:
-                if e.kind == "NoPluralTable":
-                    # literal count to a plural needs the table; resolved later, structure is fine
-                    rn = None
-                else:
-                    return False, None
+                return False, None
             if rn is None:
                 continue
             v, c, cnt = model.collect_vars(rn)
@@ -376,11 +381,11 @@ def run(tier, seed, replay=None):
     rng = rng_for(seed, "C06")
     n = 250 if tier == "quick" else 4000
     projs, builders = [], []
+    ptable = builder_ptable()
     for _ in range(n):
-        b = Builder(rng, tier)
+        b = Builder(rng, tier, ptable)
         projs.append(b.build(rng.randint(4, 8), rng.randint(3, 9)))
         builders.append(b)
-    ptable = workload.plural_table_for(projs)
     dirs, _ = workload.materialise(projs, "c06", seed=seed)
     outs = workload.run_projects(dirs, "json")
     nref = 0
@@ -398,7 +403,7 @@ def run(tier, seed, replay=None):
     erng = rng_for(seed, "C06", "E")
     crates = []
     for i in range(2 if tier == "quick" else 10):
-        b = Builder(erng, tier)
+        b = Builder(erng, tier, ptable)
         p = b.build(erng.randint(5, 8), erng.randint(6, 10))
         c = e2e.ProbeCrate("c06_%d" % i, p)
         c01.add_e2e_observations(c, p, workload.plural_table_for([p]), erng, 1, flavours=("td_string", "td"))
